@@ -37,6 +37,24 @@ def elements_of(db):
     return prim, val
 
 
+_POLY = {}
+
+
+def polyatomic_redox(db):
+    """elements that have a valence-state master species containing more than one atom of the element"""
+    key = id(db)
+    if key not in _POLY:
+        out = []
+        for m in db.masters:
+            if not m.primary:
+                base = m.element.split("(")[0]
+                sp = db.species.get(m.species)
+                if sp and abs(sp.elements.get(base, 1.0) - 1.0) > 1e-9 and base not in SKIP_ELEMENTS and base not in out:
+                    out.append(base)
+        _POLY[key] = out
+    return _POLY[key]
+
+
 def log_uniform(rng, lo, hi):
     return 10 ** rng.uniform(math.log10(lo), math.log10(hi))
 
@@ -76,6 +94,12 @@ def gen_solution(rng, db, number=1, hard=False):
     nel = rng.randint(1, 8)
     chosen = rng.sample(prim, min(nel, len(prim)))
     redox = [e for e in prim if e in val]
+    poly = polyatomic_redox(db)
+    if poly and rng.random() < 0.2:              # a valence master with several atoms of the element (N2, S2O3-2 …)
+        e = rng.choice(poly)
+        if e not in chosen:
+            chosen[rng.randrange(len(chosen))] = e
+        meta["features"].append("polyatomic-valence-master")
     if redox and rng.random() < 0.6:          # favour elements with several valence states (rewriting, basis switches)
         for e in rng.sample(redox, min(len(redox), rng.randint(1, 2))):
             if e not in chosen:
